@@ -653,6 +653,26 @@ func TestVF_C23_hostile(t *testing.T) {
 }
 
 // ---- allocation bound of the metadata decoder ------------------------------------
+//
+// FINDING (fingerprint "metadata-count-presize-alloc", listed in known_findings.json):
+// (*Metadata).UnmarshalBinary pre-sizes its map from the unvalidated 16-bit header
+// count (internal/net/metadata.go:149-151, `m.headers = make(map[string]string, count)`).
+// The 10-byte section ff ff 00 00 00 00 00 00 00 00 (a 34-byte frame) allocates
+// 5 248 176 bytes and is then rejected with ErrInvalidMetadata; with a frame limit
+// configured below ~5 MiB that is an allocation beyond the frame limit for a frame of
+// 34 bytes (amplification ~150 000x). Proposed fix, behaviour-preserving for every
+// section that decodes today (an impossible count fails a few lines later anyway):
+//
+//	count := int(binary.BigEndian.Uint16(data[pos:]))
+//	pos += 2
+//	if count > (len(data)-10)/4 { // each header needs >= 4 bytes, plus the 10 fixed bytes
+//		return ErrInvalidMetadata
+//	}
+//	m.headers = make(map[string]string, count)
+//
+// The oracle below (bytes allocated <= 64 x input length + 64 KiB) reports the shape
+// "declared count > (len-10)/4" under that fingerprint and every other excess as
+// "metadata-alloc-beyond-frame" (not listed, not suppressed).
 
 type c23AllocCase struct {
 	Headers []c23Header `json:"headers"`
